@@ -69,8 +69,13 @@ def to_classes(spec: dict) -> list[dict]:
                 flags["kw_only"] = True
             fields.append({"name": f["name"], "ann": ann_of(kind), "default": default, "flags": flags, "kind": kind})
         bases = [f"C{j}" for j in c["bases"]] if c.get("bases") else None
-        classes.append({"name": f"C{i}", "base": f"C{i - 1}" if i else None, "bases": bases, "fields": fields,
-                        "kw_only": c.get("kw_only", False)})
+        cd = {"name": f"C{i}", "base": f"C{i - 1}" if i else None, "bases": bases, "fields": fields,
+              "kw_only": c.get("kw_only", False)}
+        if c.get("redeclare_origin"):
+            # a built-in field declared again (new Field object, same name, same place in the field
+            # order): it still follows its own skip flag only
+            cd["extra"] = "    origin: Origin = field(default=NO_ORIGIN, kw_only=True)\n"
+        classes.append(cd)
     return classes
 
 
@@ -282,6 +287,7 @@ def check_hierarchy(data: dict, lab: Labels) -> None:
     lab.tag_if(both, "noninit-noncompare")
     lab.tag_if(n >= 2, "levels>=2")
     lab.tag_if(any(c.get("kw_only") for c in classes), "kw_only")
+    lab.tag_if(any(c.get("extra") for c in classes), "origin-redeclared")
     lab.tag_if(any(c.get("bases") and len(c["bases"]) > 1 for c in classes), "multiple-inheritance")
     lab.nontrivial = (n >= 2 and override) or both or any(f["kind"] not in PROP_KINDS for c in classes for f in c["fields"])
     if data.get("redefine"):
@@ -363,6 +369,16 @@ def st_hierarchy(ctx: Ctx):
             out.append({"fields": [], "kw_only": False, "bases": [1, 2]})
         return {"levels": out, "postponed": postponed, "redefine": redefine}
 
+    def with_origin(t: tuple) -> dict:
+        d, k = t
+        if k is not None:
+            d["levels"][k % len(d["levels"])]["redeclare_origin"] = True
+        return d
+
+    return st.tuples(_base(fix, level), st.one_of(st.none(), st.none(), st.integers(0, 3))).map(with_origin)
+
+
+def _base(fix, level):  # noqa: ANN001
     return st.tuples(st.one_of(st.lists(level(), min_size=2, max_size=3), st.lists(level(), min_size=1, max_size=3)), st.lists(st.booleans(), min_size=3, max_size=3),
                      st.booleans(), st.booleans(), st.sampled_from([False, False, True])).map(lambda t: fix(t[0], t[1], t[2], t[3], t[4]))
 
